@@ -33,7 +33,7 @@ from comb_spec_searcher.exception import ExceededMaxtimeError, NoMoreClassesToEx
 from comb_spec_searcher.isomorphism import Isomorphism
 
 ID = "C13"
-QUICK_RUNS = 6000
+QUICK_RUNS = 20000
 CHUNK = 20
 THOROUGH_BUDGET_S = 900
 WATCHDOG = 120.0
